@@ -1,14 +1,16 @@
 #!/bin/bash
-# usage: try_mutant.sh <patch.diff> <tier> <pid> [<pid>...]  -- applies the patch to /repo, runs the checks, ALWAYS reverts
+# usage: try_mutant.sh <patch.diff> <tier> <pid> [<pid>...]
+# applies the patch in a scratch worktree of /repo HEAD (never in /repo itself) and runs the checks against it (VERIF_REPO)
 set -u
 PATCH=$1; TIER=$2; shift 2
-cd /repo || exit 2
-if [ -n "$(git status --porcelain)" ]; then echo "/repo not clean"; exit 2; fi
-git apply "$PATCH" 2>/dev/null || patch -p1 -s -F3 --no-backup-if-mismatch < "$PATCH" || { echo "patch does not apply"; exit 2; }
-trap 'git -C /repo checkout -- . ' EXIT
+WT=/tmp/try/$$
+mkdir -p /tmp/try
+git -C /repo worktree add --detach "$WT" HEAD -q || exit 2
+trap 'git -C /repo worktree remove --force "$WT" 2>/dev/null' EXIT
+( cd "$WT" && { git apply "$PATCH" 2>/dev/null || patch -p1 -s -F3 --no-backup-if-mismatch < "$PATCH"; } ) || { echo "patch does not apply"; exit 2; }
 cd /verif
 for pid in "$@"; do
-  out=$(bin/check "$pid" --tier "$TIER" 2>&1); rc=$?
+  out=$(VERIF_REPO="$WT" bin/check "$pid" --tier "$TIER" 2>&1); rc=$?
   echo "== $pid rc=$rc $(echo "$out" | grep -c '^VIOLATION') violation line(s): $(echo "$out" | grep -A1 '^VIOLATION' | grep -v '^VIOLATION' | head -1 | cut -c1-220)"
   echo "$out" | tail -1
 done
